@@ -7,7 +7,8 @@ MODULE = "GoNfsd.Props.C07"
 
 
 def run(ctx):
-    ok_go, ok_drv = seqlib.build_and_prove(ctx, MODULE)
+    ok_go, ok_drv = seqlib.build_and_prove(ctx, MODULE, extra_parts=["skeleton"])
+    seqlib.report_flush_callers(ctx)
     if ok_go:
         data = ["-workloads", "24", "-ops", "80", "-images", "1200"] if ctx.tier == "thorough" else ["-workloads", "6", "-ops", "50", "-images", "200"]
         crashlib.run_crash(ctx, ok_drv, "data", data, lambda label, key: True)
